@@ -172,6 +172,19 @@ func (c *Ctx) slashNormalisedBefore(fd *ast.FuncDecl, p ast.Expr, pos token.Pos)
 			normEnd = st.End()
 		}
 	}
+	// or: P = helper(...) where every result of the package helper is "" or ends with "/"
+	for _, st := range fd.Body.List {
+		if st.End() > pos {
+			break
+		}
+		as, ok := st.(*ast.AssignStmt)
+		if !ok || len(as.Lhs) != 1 || len(as.Rhs) != 1 || !isP(as.Lhs[0]) {
+			continue
+		}
+		if call, ok := unparen(as.Rhs[0]).(*ast.CallExpr); ok && c.resultsSlashTerminated(call) && st.End() > normEnd {
+			normEnd = st.End() // a later plain assignment is caught by the no-assignment-in-between test below
+		}
+	}
 	if normEnd == token.NoPos {
 		return false
 	}
@@ -259,4 +272,48 @@ func ruleLocationPrefix(c *Ctx) {
 			return true
 		})
 	}
+}
+
+// resultsSlashTerminated: the call is to a package function with one result, and every return statement of it
+// yields "" or a string known to end with "/" (a constant, X + "/", or a value tested with strings.HasSuffix).
+func (c *Ctx) resultsSlashTerminated(call *ast.CallExpr) bool {
+	g, _ := c.callee(call).(*types.Func)
+	if g == nil || g.Pkg() != c.Types {
+		return false
+	}
+	gfd := c.decl(g)
+	if gfd == nil || gfd.Body == nil || g.Type().(*types.Signature).Results().Len() != 1 {
+		return false
+	}
+	ok, n := true, 0
+	ast.Inspect(gfd.Body, func(nd ast.Node) bool {
+		if _, isLit := nd.(*ast.FuncLit); isLit {
+			return false
+		}
+		rs, isR := nd.(*ast.ReturnStmt)
+		if !isR || len(rs.Results) != 1 {
+			return true
+		}
+		n++
+		r := unparen(rs.Results[0])
+		if s, isC := c.constString(r); isC {
+			if s != "" && !strings.HasSuffix(s, "/") {
+				ok = false
+			}
+			return true
+		}
+		if be, isB := r.(*ast.BinaryExpr); isB && be.Op == token.ADD && endsWithSlashConst(c, be.Y) {
+			return true
+		}
+		rt := exprString(r)
+		for _, cl := range c.literalsAt(gfd, rs) {
+			if cc, isCall := unparen(cl.e).(*ast.CallExpr); isCall && !cl.neg && c.isPkgFunc(cc, "strings", "HasSuffix") && len(cc.Args) == 2 &&
+				exprString(unparen(cc.Args[0])) == rt && endsWithSlashConst(c, cc.Args[1]) {
+				return true
+			}
+		}
+		ok = false
+		return true
+	})
+	return ok && n > 0
 }
